@@ -353,6 +353,19 @@ func (c c15Case) run(spelling string, tmp string) (trace []traceEv, out jetrun.O
 			}
 		}
 		inner = jet.NewOSFileSystemLoader(root)
+		// a directory next to the root whose name begins with the root's name, and a name that is an OS path into the
+		// root: clean absolute template names both, and neither is a file below the root
+		sib := root + "-private"
+		if os.MkdirAll(sib, 0o755) == nil && os.WriteFile(filepath.Join(sib, "secret.jet"), []byte("OUTSIDE-MARKER"), 0o644) == nil {
+			for _, nm := range []string{filepath.ToSlash(sib) + "/secret.jet", filepath.ToSlash(root) + "-private/secret.jet"} {
+				if inner.Exists(nm) {
+					return nil, jetrun.Outcome{Out: "Exists(" + nm + ") OUTSIDE-MARKER"}, nil, true
+				}
+				if st, ok := jetrun.Get(jet.NewSet(inner), nm); !ok.Failed() && st != nil {
+					return nil, jetrun.Outcome{Out: "GetTemplate(" + nm + ") OUTSIDE-MARKER"}, nil, true
+				}
+			}
+		}
 	} else {
 		m := jet.NewInMemLoader()
 		for p, content := range files {
@@ -725,7 +738,7 @@ func judgeC15(c c15Case) (v core.Verdict) {
 
 func TestC15(t *testing.T) {
 	core.Run(t, "C15",
-		"name spellings from segments {a,b,tpl.jet,d1,d2,.,..,''} with/without leading and trailing slash, used via GetTemplate/extends/import/include (static and computed)/exec/includeIfExists from a referrer at directory depth 0-3, eight extension lists (dotted and dotless entries), in-memory loader or OSFileSystemLoader with marker files outside its root; recording Loader and Cache wrappers; plus a second spelling of the same canonical name; two referrers whose directories are string prefixes of one another (/d1 + x and /d + 1x) in one Set; includes written in yield content handed to a block that another directory defines; via GetTemplate also 3-5 names looked up at the same time by two goroutines each on one Set; also: segments that only look special ('...', '....', '. .', a trailing dot or blank, control characters); non-trivial = spelling differs from its canonical form at referrer depth>=1, or has more '..' than the depth",
+		"name spellings from segments {a,b,tpl.jet,d1,d2,.,..,''} with/without leading and trailing slash, used via GetTemplate/extends/import/include (static and computed)/exec/includeIfExists from a referrer at directory depth 0-3, eight extension lists (dotted and dotless entries), in-memory loader or OSFileSystemLoader with marker files outside its root; recording Loader and Cache wrappers; plus a second spelling of the same canonical name; two referrers whose directories are string prefixes of one another (/d1 + x and /d + 1x) in one Set; includes written in yield content handed to a block that another directory defines; via GetTemplate also 3-5 names looked up at the same time by two goroutines each on one Set; also: segments that only look special ('...', '....', '. .', a trailing dot or blank, control characters); round 10: an OS loader probed with names that begin with its root directory's own path (a sibling directory with the same prefix); non-trivial = spelling differs from its canonical form at referrer depth>=1, or has more '..' than the depth",
 		genC15, judgeC15)
 }
 
